@@ -14,6 +14,9 @@ import (
 	"testing"
 
 	"pgregory.net/rapid"
+
+	"verifharness/app"
+	"verifharness/refdec"
 )
 
 type walkInfo struct {
@@ -48,13 +51,18 @@ func (c PageCase) hasEmptyRow() bool {
 // walk renders page 0, 1, ... and applies the partition oracle. sizeOnly: only what C01
 // needs (bound + admissible page), not completeness / navigability.
 func (c PageCase) walk(sizeOnly bool) (w walkInfo) {
+	return c.walkWith(sizeOnly, c.renderAt)
+}
+
+// walkWith applies the oracle to pages obtained from render (index -> page).
+func (c PageCase) walkWith(sizeOnly bool, render func(idx uint16) (string, error, *panicInfo)) (w walkInfo) {
 	fail := func(kind, detail, format string, a ...any) walkInfo {
 		w.viol = viol(kind, format, a...)
 		w.viol.Detail = detail
 		return w
 	}
 	if !c.paginated() {
-		out, err, p := c.renderAt(0)
+		out, err, p := render(0)
 		if p != nil {
 			w.viol = &Violation{Kind: "panic", Msg: "render panics: " + p.val, Detail: p.stack}
 			return
@@ -75,7 +83,7 @@ func (c PageCase) walk(sizeOnly bool) (w walkInfo) {
 		}
 		w.pages = 1
 		// a single page has no lateral neighbours
-		if _, err, p := c.renderAt(1); p != nil {
+		if _, err, p := render(1); p != nil {
 			w.viol = &Violation{Kind: "panic", Msg: "render of index 1 panics: " + p.val, Detail: p.stack}
 		} else if err == nil && !sizeOnly {
 			return fail("past-end-rendered", "", "index 1 of a single-page node rendered instead of failing")
@@ -89,7 +97,7 @@ func (c PageCase) walk(sizeOnly bool) (w walkInfo) {
 	r := 0
 	maxPages := len(rows) + 3
 	for i := 0; i < maxPages; i++ {
-		out, err, p := c.renderAt(uint16(i))
+		out, err, p := render(uint16(i))
 		if p != nil {
 			w.viol = &Violation{Kind: "panic", Msg: fmt.Sprintf("render of page %d panics: %s", i, p.val), Detail: p.stack}
 			return
@@ -141,7 +149,7 @@ func (c PageCase) walk(sizeOnly bool) (w walkInfo) {
 			}
 			// past the end: errors, never content
 			for _, j := range []int{i + 1, i + 2} {
-				out, err, p := c.renderAt(uint16(j))
+				out, err, p := render(uint16(j))
 				if p != nil {
 					w.viol = &Violation{Kind: "panic", Msg: fmt.Sprintf("render of page %d (past the last page %d) panics: %s", j, i, p.val), Detail: p.stack}
 					return
@@ -276,6 +284,133 @@ func init() {
 	}
 }
 
+// --- the same oracle through the engine ----------------------------------------------
+//
+// The page set-up is turned into a one-node application (LOADs of scripted functions,
+// MAPs, MOUTs, MNEXT/MPREV, optional MSINK, HALT, INCMP > / < on the browse selectors) and
+// the pages are obtained by sending the 'next' selector to a real engine, long-lived or
+// engine-per-request.
+
+func (c PageCase) toApp() *app.App {
+	a := &app.App{Menus: map[string]string{}}
+	for k, v := range c.Labels {
+		a.Menus[k] = v
+	}
+	a.Cfg.OutputSize = c.Size
+	a.Cfg.MenuSeparator = c.Sep
+	var code []app.Instr
+	for _, v := range c.Vals {
+		a.Syms = append(a.Syms, app.Sym{Name: v.Sym, Results: []app.Result{{Content: v.Content}}})
+		code = append(code, app.Instr{Op: refdec.LOAD, Sym: refdec.BS(v.Sym), Num: uint32(v.Limit)})
+	}
+	for _, v := range c.Vals {
+		code = append(code, app.Instr{Op: refdec.MAP, Sym: refdec.BS(v.Sym)})
+	}
+	for _, m := range c.Menu {
+		code = append(code, app.Instr{Op: refdec.MOUT, Sym: refdec.BS(m.Label), Sel: refdec.BS(m.Sel)})
+	}
+	if c.Next != nil {
+		code = append(code, app.Instr{Op: refdec.MNEXT, Sym: refdec.BS(c.Next.Label), Sel: refdec.BS(c.Next.Sel)})
+	}
+	if c.Prev != nil {
+		code = append(code, app.Instr{Op: refdec.MPREV, Sym: refdec.BS(c.Prev.Label), Sel: refdec.BS(c.Prev.Sel)})
+	}
+	if c.MSink {
+		code = append(code, app.Instr{Op: refdec.MSINK})
+	}
+	code = append(code, app.Instr{Op: refdec.HALT})
+	if c.Next != nil {
+		code = append(code, app.Instr{Op: refdec.INCMP, Sym: ">", Sel: refdec.BS(c.Next.Sel)})
+	}
+	if c.Prev != nil {
+		code = append(code, app.Instr{Op: refdec.INCMP, Sym: "<", Sel: refdec.BS(c.Prev.Sel)})
+	}
+	code = append(code, app.Instr{Op: refdec.INCMP, Sym: ".", Sel: "*"})
+	a.Nodes = []app.Node{{Name: "root", Code: code, Tpl: c.Tpl},
+		{Name: "_catch", Code: []app.Instr{{Op: refdec.HALT}, {Op: refdec.INCMP, Sym: "_", Sel: "*"}}, Tpl: "CATCH"}}
+	return a
+}
+
+type C02Engine struct {
+	Page PageCase `json:"page"`
+	Mode app.Mode `json:"mode"`
+}
+
+func checkC02Engine(c C02Engine) (o Outcome) {
+	pc := c.Page
+	if !pc.paginated() || pc.Next == nil || pc.Err != "" {
+		o.Discard = "not-walkable"
+		return
+	}
+	if pc.hasEmptyRow() && tolerate("F-C02-1") {
+		o.Tolerated = append(o.Tolerated, "F-C02-1")
+		return
+	}
+	var storage app.Storage
+	cleanup := func() {}
+	if c.Mode.Kind != "long" {
+		storage, cleanup = newStorage(c.Mode.Backend)
+	}
+	defer cleanup()
+	s := app.NewSession(app.NewShared(pc.toApp()), c.Mode, storage)
+	cur := -1
+	var pages []string
+	var last app.Step
+	// sequential access: index i is reached by sending 'next' i times
+	render := func(idx uint16) (string, error, *panicInfo) {
+		for cur < int(idx) {
+			in := ""
+			if cur >= 0 {
+				in = pc.Next.Sel
+			}
+			last = s.Request([]byte(in))
+			cur++
+			if last.Panic != "" {
+				return "", nil, &panicInfo{val: last.Panic, stack: last.Stack}
+			}
+			if last.ExecErr != "" || last.FlushErr != "" {
+				return "", fmt.Errorf("%s%s", last.ExecErr, last.FlushErr), nil
+			}
+			if last.After != nil && len(last.After.Path) > 0 && last.After.Path[len(last.After.Path)-1] == "_catch" {
+				// past the end the engine answers from the catch node: that is the error report
+				return "", fmt.Errorf("catch node: %q", last.Out), nil
+			}
+			pages = append(pages, last.Out)
+		}
+		if int(idx) < len(pages) {
+			return pages[idx], nil, nil
+		}
+		return "", fmt.Errorf("not reached"), nil
+	}
+	w := pc.walkWith(false, render)
+	if w.viol != nil && w.viol.Kind == "offered-page-fails" && w.viol.Detail == "row-fits-only-without-both-entries" && tolerate("F-C02-2") {
+		o.Tolerated = append(o.Tolerated, "F-C02-2")
+		w.viol = nil
+	}
+	o.Viol = w.viol
+	// walking back with 'previous' shows the same pages again
+	if o.Viol == nil && pc.Prev != nil && len(pages) >= 2 && last.ExecErr == "" && last.FlushErr == "" && last.Panic == "" &&
+		last.After != nil && last.After.Path[len(last.After.Path)-1] != "_catch" && cur == len(pages)-1 {
+		for i := len(pages) - 2; i >= 0; i-- {
+			st := s.Request([]byte(pc.Prev.Sel))
+			if st.Panic != "" || st.ExecErr != "" || st.FlushErr != "" {
+				o.Viol = viol("walk-back-fails", "going back from page %d to page %d fails: %s%s%s", i+1, i, st.Panic, st.ExecErr, st.FlushErr)
+				return
+			}
+			if st.Out != pages[i] {
+				o.Viol = viol("walk-back-differs", "page %d shown on the way back is %q, on the way forward it was %q", i, st.Out, pages[i])
+				return
+			}
+		}
+		o.class("walked-back")
+	}
+	o.NonTrivial = w.pages >= 2
+	o.class("engine-pages:%d", min(w.pages, 5))
+	o.class("mode:" + c.Mode.Kind)
+	return
+}
+
+var _ = registerReplay("C02", "engine", checkC02Engine)
 var _ = registerReplay("C02", "page", checkC02)
 var _ = registerReplay("C01", "page", checkC01Page)
 
@@ -284,6 +419,14 @@ func TestC02(t *testing.T) {
 	RunProp(t, "C02", "page", pick(5000, 80000), func(t *rapid.T) PageCase {
 		return genPageCase(t, pageGenOpts{sink: true, emptyRows: chancePct(t, 10, "emptyrows")})
 	}, checkC02)
+	if t.Failed() {
+		return
+	}
+	RunProp(t, "C02", "engine", pick(1500, 15000), func(t *rapid.T) C02Engine {
+		pc := genPageCase(t, pageGenOpts{sink: true})
+		pc.Err = ""
+		return C02Engine{Page: pc, Mode: []app.Mode{{Kind: "long"}, {Kind: "persist", Backend: "mem"}}[uniformN(t, 2, "mode")]}
+	}, checkC02Engine)
 }
 
 var _ = strings.Join
